@@ -14,8 +14,10 @@ import os
 import subprocess
 import sys
 
-base = sys.argv[1]
-only = set(sys.argv[2:])
+args = [a for a in sys.argv[1:] if not a.startswith("--")]
+STYLE = "refactor-bug" if "--refactor-bug" in sys.argv else "plain"
+base = args[0]
+only = set(args[1:])
 props = {}
 for l in open("/verif/properties.jsonl"):
     d = json.loads(l)
@@ -39,7 +41,7 @@ The property that the system is supposed to satisfy:
   (quantified over: {quant})
   Code areas involved: {files}
 
-Your task: produce TWO DIFFERENT, INDEPENDENT source changes (each a small, realistic edit a developer could plausibly make: a refactoring slip, an 'optimisation', a wrong condition, a forgotten case, two cooperating edits that each look fine alone, ...), such that for EACH change:
+Your task: produce TWO DIFFERENT, INDEPENDENT source changes ({style_text}), such that for EACH change:
   1. the code still imports and the existing test suite (161 tests) still passes unchanged;
   2. the change BREAKS the property above (a real behavioural violation, not a crash on every run);
   3. the violation needs something specific to manifest (a particular input shape, an unusual configuration, a multi-step sequence, a rare random choice, two cooperating sites) - ordinary use would NOT expose it at once;
@@ -74,7 +76,18 @@ for pid in claimed:
     if not os.path.isdir(wt):
         subprocess.check_call(["git", "-C", "/repo", "worktree", "add", "-q", "--detach", wt])
     os.makedirs(out, exist_ok=True)
-    open("%s/prompt_c%s.txt" % (base, n), "w").write(T.format(
+    style_text = ("each a small, realistic edit a developer could plausibly make: a refactoring slip, an 'optimisation', a "
+                  "wrong condition, a forgotten case, two cooperating edits that each look fine alone, ...")
+    if STYLE == "refactor-bug":
+        style_text = ("each one a realistic CLEAN-UP REFACTORING of 10-50 changed lines in the central code of the property - "
+                      "extract a helper function or method, inline a helper, introduce explaining variables, restructure "
+                      "control flow with early returns / merged conditions, turn loops into comprehensions or the reverse, "
+                      "switch call sites to keyword arguments, reorder statements - that looks purely cosmetic in review but "
+                      "in which ONE detail of the behaviour silently changes (a condition slightly different in the "
+                      "extracted helper, a statement that ends up outside / inside a branch, an argument lost or swapped, a "
+                      "comprehension that filters differently from the loop, an evaluation moved before / after a mutation, "
+                      "a copy that is no longer made, ...); most of the diff must be genuinely behaviour-preserving")
+    open("%s/prompt_c%s.txt" % (base, n), "w").write(T.format(style_text=style_text, 
         wt=wt, out=out, pid=pid, title=d["title"], statement=d["statement"], quant=d["quantifier"]["text"],
         files=", ".join(d["anchors"]["files"]), earlier="\n".join(earlier) or "  (none)"))
     print(pid, wt, len(earlier), "earlier mechanisms")
